@@ -164,9 +164,11 @@ def recipes(rng, domains=("continuous", "integer", "binary"), thorough=False):
     """cell cover of the construction routes (+ seeded random compositions)"""
     out = []
     for dom in domains:
-        for lb, ub in ((None, None), (0.5, None), (-1.0, 3.0)):
+        # bounds as numbers of several numeric types (a binary declaration must end at [0, 1] whatever was passed)
+        for bi, (lb, ub) in enumerate(((None, None), (0.5, None), (-1.0, 3.0), (np.int64(-3), np.float32(7.5)), (2, 1e16))):
+            vname = ["x", "x", "x", "x1", "b_10"][bi]
             out.append(("var", f"s_{dom[0]}", lb, ub, dom))
-            vec = ("vec", "x", 4, lb, ub, dom)
+            vec = ("vec", vname, 4, lb, ub, dom)
             out.append(vec)
             if (lb, ub) == (None, None):
                 out += [("vec", "x", 0, lb, ub, dom), ("vec", "e", 1, lb, ub, dom)]
